@@ -827,10 +827,69 @@ func (sp *shaperOpentype) shape(font *Font, buffer *Buffer, features []Feature) 
 
 	c.substituteAfterPosition()
 
+	enforceMonotoneClusters(c.buffer, c.targetDirection)
+
 	propagateFlags(c.buffer)
 
 	c.buffer.Props.Direction = c.targetDirection
 	c.buffer.context, c.buffer.Flags = savedContext, savedFlags
 
 	c.buffer.maxOps = maxOpsDefault
+}
+
+// enforceMonotoneClusters merges the clusters which are not in the order promised by the
+// monotone cluster levels: the reordering done by the complex shapers assumes ascending
+// clusters inside a syllable, which does not hold for a run whose graphemes have been reversed,
+// nor for the pre-base glyphs of a syllable without base.
+func enforceMonotoneClusters(buffer *Buffer, target Direction) {
+	if buffer.ClusterLevel == Characters {
+		return
+	}
+	info := buffer.Info
+	L := len(info)
+	// walk the glyphs in the order their clusters must ascend
+	at := func(i int) *GlyphInfo {
+		if target.isForward() {
+			return &info[i]
+		}
+		return &info[L-1-i]
+	}
+	isMonotone := true
+	for i := 1; i < L; i++ {
+		if at(i-1).Cluster > at(i).Cluster {
+			isMonotone = false
+			break
+		}
+	}
+	if isMonotone { // the common case
+		return
+	}
+
+	// groups of glyphs sharing a cluster, with ascending values
+	type group struct{ start, cluster int }
+	var groups []group
+	for i := 0; i < L; i++ {
+		c := at(i).Cluster
+		if n := len(groups); n != 0 && groups[n-1].cluster == c {
+			continue
+		} else if n == 0 || groups[n-1].cluster < c {
+			groups = append(groups, group{i, c})
+			continue
+		}
+		// out of order: merge with the previous groups, as long as they are higher
+		for n := len(groups); n >= 2 && groups[n-2].cluster >= c; n = len(groups) {
+			groups = groups[:n-1]
+		}
+		groups[len(groups)-1].cluster = c
+	}
+	for gi, g := range groups {
+		end := L
+		if gi+1 < len(groups) {
+			end = groups[gi+1].start
+		}
+		for i := g.start; i < end; i++ {
+			at(i).setCluster(g.cluster, 0)
+		}
+	}
+	buffer.scratchFlags |= bsfHasGlyphFlags
 }
